@@ -44,6 +44,7 @@ func NewUfsSys(x *Ctx, srvMsize uint32, srvDotu bool, maxpend, debug int) *UfsSy
 		x.Trouble("scratch: %v", err)
 		return nil
 	}
+	x.S.OSYield = true
 	u := &UfsSys{x: x, Base: base, Outer: filepath.Join(base, "outer"), Root: filepath.Join(base, "outer", "root")}
 	syscall.Umask(0)
 	if err := os.MkdirAll(u.Root, 0o755); err != nil {
